@@ -228,18 +228,21 @@ Definition spec_check (c : case) : bool :=
   (* the operands of the arithmetic are the OBSERVED widened values *)
   let x := decode80 (o_wa o) in
   let y := decode80 (o_wb o) in
+  (* the observed operands are data of the extended format (canonical significand, exponent in range) *)
+  let ok v := valid_binary 64 16384 v in
   let ar (sp : Z -> Z -> spec_float -> spec_float -> spec_float -> bool) r n :=
-      sp 64 16384 x y (decode80 r) && spec_round 53 1024 (decode80 r) (decode64 n) in
+      ok x && ok y && sp 64 16384 x y (decode80 r) && spec_round 53 1024 (decode80 r) (decode64 n) in
   let nonan := negb (is_nan_sf va) && negb (is_nan_sf vb) in
   on op OConv (spec_widen va (o_wa o) && spec_widen vb (o_wb o)
                && (if is_nan_sf va then is_nan_bits (o_back o) else o_back o =? a))
   && on op OAdd (ar spec_add (o_add o) (o_nadd o))
-  && on op OSub (spec_add 64 16384 x (flip y) (decode80 (o_sub o))
+  && on op OSub (ok x && ok y && spec_add 64 16384 x (flip y) (decode80 (o_sub o))
                  && spec_round 53 1024 (decode80 (o_sub o)) (decode64 (o_nsub o)))
   && on op OMul (ar spec_mul (o_mul o) (o_nmul o))
   && on op ODiv (ar spec_div (o_div o) (o_ndiv o))
   && on op ONeg (if is_nan_sf va then is_nan_raw (o_neg o) else raw_eqb (o_neg o) (flip_raw (o_wa o)))
-  && on op OChain (spec_add 64 16384 (decode80 (o_mul o)) x (decode80 (o_mad o))
+  && on op OChain (ok x && ok y && ok (decode80 (o_mul o)) && ok (decode80 (o_mad o))
+                   && spec_add 64 16384 (decode80 (o_mul o)) x (decode80 (o_mad o))
                    && spec_div 64 16384 (decode80 (o_mad o)) y (decode80 (o_chain o))
                    && spec_round 53 1024 (decode80 (o_chain o)) (decode64 (o_nchain o)))
   && on op ORel (let c := xcmp va vb in
@@ -277,5 +280,4 @@ Definition explain (c : case) :=
     cost 0.03 ms.  The batch files therefore write every 64-bit word as two 32-bit halves.
     (Only the batch files use these; no theorem mentions primitive integers.) *)
 Definition W (hi lo : int) : Z := Z.shiftl (Uint63.to_Z hi) 32 + Uint63.to_Z lo.
-Definition R (se hi lo : int) : raw := (Uint63.to_Z se, W hi lo).
-Definition B (b : int) : bool := negb (Uint63.eqb b 0).
+Definition RW (se hi lo : int) : raw := (Uint63.to_Z se, W hi lo).
